@@ -17,15 +17,11 @@ theorem log_gaussianPDFReal (μ x : ℝ) (v : ℝ≥0) (hv : v ≠ 0) :
   field_simp
   ring
 
-/-- C01: the model's log-likelihood is the log of the mixture of products of Mathlib's normal
-densities (weights and variances positive). -/
-theorem C01_loglik_eq_log_mixture (p : Params (C+1) D ℝ) (x : Fin D → ℝ)
-    (v : Fin (C+1) → Fin D → ℝ≥0) (hvne : ∀ c d, v c d ≠ 0) (hv : ∀ c d, p.variances c d = v c d)
-    (hw : ∀ c, 0 < p.weights c) :
-    logLik p x = Real.log (∑ c, p.weights c * ∏ d, gaussianPDFReal (p.means c d) (v c d) (x d)) := by
-  rw [logLik, logaddexpReduce_eq]
-  congr 1
-  refine Finset.sum_congr rfl fun c _ => ?_
+/-- `exp (lwl p x c)` is the weighted component density -/
+theorem exp_lwl_eq (p : Params C D ℝ) (x : Fin D → ℝ)
+    (v : Fin C → Fin D → ℝ≥0) (hvne : ∀ c d, v c d ≠ 0) (hv : ∀ c d, p.variances c d = v c d)
+    (hw : ∀ c, 0 < p.weights c) (c : Fin C) :
+    Real.exp (lwl p x c) = p.weights c * ∏ d, gaussianPDFReal (p.means c d) (v c d) (x d) := by
   have hpos : ∀ d, 0 < gaussianPDFReal (p.means c d) (v c d) (x d) :=
     fun d => gaussianPDFReal_pos _ _ _ (hvne c d)
   have hprod : 0 < ∏ d, gaussianPDFReal (p.means c d) (v c d) (x d) :=
@@ -37,4 +33,13 @@ theorem C01_loglik_eq_log_mixture (p : Params (C+1) D ℝ) (x : Fin D → ℝ)
   simp only [sumFin_eq, Transc.log, Transc.pi, hv]
   simp only [log_gaussianPDFReal _ _ _ (hvne c _)]
   rw [← Finset.mul_sum, Finset.sum_add_distrib, Finset.sum_add_distrib]
-#print axioms C01_loglik_eq_log_mixture
+
+/-- C01: the model's log-likelihood is the log of the mixture of products of Mathlib's normal
+densities (weights and variances positive). -/
+theorem C01_loglik_eq_log_mixture (p : Params (C+1) D ℝ) (x : Fin D → ℝ)
+    (v : Fin (C+1) → Fin D → ℝ≥0) (hvne : ∀ c d, v c d ≠ 0) (hv : ∀ c d, p.variances c d = v c d)
+    (hw : ∀ c, 0 < p.weights c) :
+    logLik p x = Real.log (∑ c, p.weights c * ∏ d, gaussianPDFReal (p.means c d) (v c d) (x d)) := by
+  rw [logLik, logaddexpReduce_eq]
+  congr 1
+  exact Finset.sum_congr rfl fun c _ => exp_lwl_eq p x v hvne hv hw c
